@@ -309,7 +309,8 @@ class Compiler:
             # Process target references by index.
             if isinstance(column, int):
                 index = column - 1
-                if not 0 <= index < len(targets):
+                # Only the named targets of the SELECT list can be referenced.
+                if not 0 <= index < sum(1 for target in targets if target.name is not None):
                     raise CompilationError(f'invalid PIVOT BY column index {column}')
                 indexes.append(index)
                 continue
